@@ -346,13 +346,13 @@ func TestVerifC30Retention(t *testing.T) {
 					hasLookalikeOfExpired = true
 				}
 			case "nested-abs":
-				// a copy of the tree nested inside the record directory (rsync -R style): the absolute name of
-				// the model segment appears as the tail of the copy's name. For path-first layouts this is the
-				// file of path name "backup<dir>/rec/<path>", which the model classifies like any other.
+				// a copy of the tree nested inside the path's own record directory (rsync -R style): the absolute
+				// name of the model segment appears as the tail of the copy's name. For path-first layouts this is
+				// the file of path name "<path>/backup<dir>/rec/<path>", which the model classifies like any other.
 				if !strings.HasPrefix(c30Formats[base.fi].f, "rec/%path/") {
 					continue
 				}
-				if addSegShaped("backup"+dir+"/rec/"+base.pn, base.fi, base.ts, base.start, true, "nested-copy") &&
+				if addSegShaped(base.pn+"/backup"+dir+"/rec/"+base.pn, base.fi, base.ts, base.start, true, "nested-copy") &&
 					base.expired && strings.HasPrefix(files[order[len(order)-1]].kind, "nested-copy:orphan") {
 					hasLookalikeOfExpired = true
 				}
@@ -545,13 +545,13 @@ func TestVerifC30RegressSuffixBak(t *testing.T) {
 
 func TestVerifC30RegressPrefixed(t *testing.T) {
 	// a backup copy that preserved the absolute name below the record directory:
-	// <dir>/backup/<dir>/cam/<segment> contains "<dir>/cam/<segment>" but is not a segment of "cam"
+	// <dir>/cam/backup/<dir>/cam/<segment> contains "<dir>/cam/<segment>" but is not a segment of "cam"
 	var nested string
 	oldNow := timeNow
 	timeNow = func() time.Time { return time.Date(2024, 5, 20, 22, 15, 25, 0, time.Local) }
 	t.Cleanup(func() { timeNow = oldNow })
 	dir := t.TempDir()
-	nested = filepath.Join(dir, "backup", dir, "cam", "2023-01-02_03-04-05-000006.mp4")
+	nested = filepath.Join(dir, "cam", "backup", dir, "cam", "2023-01-02_03-04-05-000006.mp4")
 	real := filepath.Join(dir, "cam", "2023-01-02_03-04-05-000006.mp4")
 	for _, p := range []string{real, nested} {
 		if err := os.MkdirAll(filepath.Dir(p), 0o755); err != nil {
